@@ -12,6 +12,9 @@ FAMS = [
                   {"exec": "asyncio", "faulty": True, "cancels": True,
                    "cancel_kinds": ["scope", "deadline"], **OPTS},
                   [oracles.LimitObserver], []),
+    PoolMixFamily("C04", "limit-trio", 1200, 20000,
+                  {"exec": "trio", "faulty": True, "cancels": True, **OPTS},
+                  [oracles.LimitObserver], []),
     PoolMixFamily("C04", "limit-threads", 800, 15000,
                   {"exec": "threads", "max_callers": 4, "protos": ["h1"], **OPTS},
                   [oracles.LimitObserver], []),
